@@ -1,21 +1,31 @@
 --------------------------- MODULE MC_PriorDelivery ---------------------------
 (* C08, end to end: "log-space variants operate on log10 of the parameter and return 10**x to  *)
-(* the model" is a statement about what the MODEL receives.  A fitting parameter is declared    *)
-(* in a mode (linear / log) and may be switched by set_mode; a prior of any of the four classes *)
-(* is attached to it by one of the public routes                                               *)
+(* the model" is a statement about what the owner of the fitted parameter RECEIVES.  A fitting  *)
+(* parameter is declared in a mode (linear / log) and may be switched by set_mode; a prior of   *)
+(* any of the four classes is attached to it by one of the public routes                        *)
 (*    set_prior : Optimizer.set_prior(name, <object>)                                          *)
 (*    text      : Optimizer.set_prior(name, create_prior("<Name>(key=value, ..)"))              *)
 (*    file      : "<name>:prior = <text>" in the [Fitting] section of an input file            *)
 (*    default   : no prior is given: compile_params derives it from the mode and the bounds     *)
 (* then compile_params, then for every u of the grid the sampler's step                         *)
-(*    update_model([prior.sample(u)]).                                                          *)
+(*    update_model([prior.sample(u), ...]).                                                     *)
 (* The space of the prior and the mode of the parameter are independent dimensions: 4 classes   *)
-(* (6 constructor forms) x 4 parameter kinds x routes.  What reaches the model is               *)
+(* (6 constructor forms) x 4 parameter kinds x routes.  What reaches the owner's setter is      *)
 (* ToModel(prior, Sample(prior, k)) of the ATTACHED prior.                                      *)
+(*                                                                                             *)
+(* WHERE the parameter lives is a further dimension: the parameter under focus is owned by the  *)
+(* forward model or by the observation, and the fitted set is that parameter alone (model-only  *)
+(* / observation-only fitted sets) or that parameter in company of one fitted parameter of the  *)
+(* OTHER owner (mixed sets) -- the company with a default prior or with a user prior of the     *)
+(* other space.  compile_params is two passes (CompileModel, CompileObservation; Priors.tla:    *)
+(* InForce); compiling again changes nothing (Recompile).  A user prior attached to a parameter *)
+(* of either owner is the prior in force after compile_params, its space decides what reaches   *)
+(* the owner's setter, and default priors only go to parameters that were given none.           *)
 EXTENDS Priors, IOUtils
-CONSTANTS QNum, QShift, QDen, ENum, EShift, SNum, SDen, Export
-VARIABLES phase, pk, route, name, call, prior, recv
-vars == <<phase, pk, route, name, call, prior, recv>>
+CONSTANTS QNum, QShift, QDen, ENum, EShift, SNum, SDen, Export,
+          Companies     \* subset of {"alone", "default", "user"}: what else is fitted, on the other owner
+VARIABLES phase, focus, comp, pk, route, name, call, user, inforce, recv
+vars == <<phase, focus, comp, pk, route, name, call, user, inforce, recv>>
 
 MCZ == ndJsonDeserialize(IOEnv.PRIORS_Z_FILE)[1].z
 QS == {R(n - QShift, d) : n \in QNum, d \in QDen}
@@ -33,49 +43,111 @@ UserCalls ==
 DefaultCalls(k) == IF ModeOf(k) = "log" THEN {DefaultCall("log", b) : b \in Pairs(ES)}
                    ELSE {DefaultCall("linear", b) : b \in Pairs(QS)}
 Routes == {"set_prior", "text", "file", "default"}
-NoPrior == [kind |-> "None", a |-> Q(0), b |-> Q(0)]
 
-Init == /\ phase = "in" /\ prior = NoPrior /\ recv = <<>>
+\* ---- the company: one fitted parameter of the other owner, of another kind, whose prior (if the user gives one) is of
+\* the other space than the prior under focus, so that a prior landing on the wrong parameter cannot go unnoticed
+Other(o) == IF o = "model" THEN "observation" ELSE "model"
+CompKind(k) == CASE k = "lin" -> "log2lin" [] k = "log" -> "lin2log" [] k = "lin2log" -> "lin" [] k = "log2lin" -> "log"
+QLeast == CHOOSE x \in QS : \A y \in QS : RLe(x, y)
+QMost  == CHOOSE x \in QS : \A y \in QS : RLe(y, x)
+ELeast == CHOOSE x \in ES : \A y \in ES : x <= y
+EMost  == CHOOSE x \in ES : \A y \in ES : y <= x
+SLeast == CHOOSE x \in SS : \A y \in SS : RLe(x, y)
+CompUserCall(c) == IF c.cls \in LogKinds
+                   THEN [cls |-> "Gaussian",   key1 |-> "mean",   v1 |-> QMost,              key2 |-> "std", v2 |-> SLeast]
+                   ELSE [cls |-> "LogUniform", key1 |-> "bounds", v1 |-> <<QMost, QLeast>>,  key2 |-> "",    v2 |-> 0]
+\* bounds of a parameter the user left alone (declared with the parameter), descending on purpose
+DeclBounds(mode) == IF mode = "log" THEN <<EMost, ELeast>> ELSE <<QMost, QLeast>>
+
+Fitted == IF comp = "alone" THEN {focus} ELSE Owners
+\* the settings of the fitted parameter of owner o: kind, route, spelling, call (for the default route: the default call
+\* of its mode and bounds) and its bounds
+Setting(o) ==
+    IF o = focus THEN [pk |-> pk, route |-> route, name |-> name, call |-> call,
+                       bounds |-> IF route = "default" THEN call.v1 ELSE DeclBounds(ModeOf(pk))]
+    ELSE LET ck == CompKind(pk)
+             bd == DeclBounds(ModeOf(ck))
+         IN  IF comp = "user"
+             THEN [pk |-> ck, route |-> "set_prior", name |-> CompUserCall(call).cls, call |-> CompUserCall(call), bounds |-> bd]
+             ELSE [pk |-> ck, route |-> "default", name |-> DefaultCall(ModeOf(ck), bd).cls, call |-> DefaultCall(ModeOf(ck), bd), bounds |-> bd]
+Nobody == [o \in Owners |-> NoPrior]
+
+Init == /\ phase = "in" /\ user = Nobody /\ inforce = Nobody /\ recv = [o \in Owners |-> <<>>]
+        /\ focus \in Owners
+        /\ comp \in Companies
         /\ pk \in ParamKinds
         /\ route \in Routes
         /\ call \in (IF route = "default" THEN DefaultCalls(pk) ELSE UserCalls)
         /\ name \in (IF route = "text" THEN Spellings[call.cls] ELSE {call.cls})
 
-\* enable_fit, set_mode for the switched kinds, then the route's way of attaching the prior
+\* enable_fit, set_mode for the switched kinds, then the route's way of attaching the prior, for every fitted parameter
 \* (default: set_boundary only -- nothing is attached before compile_params)
 Attach == /\ phase = "in"
-          /\ prior' = (IF route = "default" THEN NoPrior
-                       ELSE IF route = "set_prior" THEN Build(call)
-                       ELSE FromText(Text(call, name)))
+          /\ user' = [o \in Owners |->
+                        IF o \notin Fitted THEN NoPrior
+                        ELSE LET s == Setting(o) IN
+                             IF s.route = "default" THEN NoPrior
+                             ELSE IF s.route = "set_prior" THEN Build(s.call)
+                             ELSE FromText(Text(s.call, s.name))]
           /\ phase' = "set"
-          /\ UNCHANGED <<pk, route, name, call, recv>>
-Compile == /\ phase = "set"
-           /\ prior' = (IF prior = NoPrior THEN Build(DefaultCall(ModeOf(pk), call.v1)) ELSE prior)
-           /\ phase' = "compiled"
-           /\ UNCHANGED <<pk, route, name, call, recv>>
-\* the sampler's step for every u of the grid: cube -> prior.sample(u) -> update_model -> the model's setter
+          /\ UNCHANGED <<focus, comp, pk, route, name, call, inforce, recv>>
+\* one pass of compile_params over the fitted parameters of one owner
+PassResult(o) == IF o \in Fitted THEN InForce(o, user[o], ModeOf(Setting(o).pk), Setting(o).bounds) ELSE NoPrior
+CompileModel == /\ phase = "set"
+                /\ inforce' = [inforce EXCEPT !["model"] = PassResult("model")]
+                /\ phase' = "pass1"
+                /\ UNCHANGED <<focus, comp, pk, route, name, call, user, recv>>
+CompileObservation == /\ phase = "pass1"
+                      /\ inforce' = [inforce EXCEPT !["observation"] = PassResult("observation")]
+                      /\ phase' = "compiled"
+                      /\ UNCHANGED <<focus, comp, pk, route, name, call, user, recv>>
+\* compile_params may be called again at any time before the fit (both passes anew, from what the user gave)
+Recompile == /\ phase = "compiled"
+             /\ inforce' = [o \in Owners |-> PassResult(o)]
+             /\ UNCHANGED <<phase, focus, comp, pk, route, name, call, user, recv>>
+\* the sampler's step for every u of the grid: cube -> prior.sample(u) -> update_model -> the owners' setters
 Update == /\ phase = "compiled"
-          /\ recv' = [k \in 1..(UN + 1) |-> IF (k - 1) \in Grid(prior) THEN Deliver(prior, ModeOf(pk), Sample(prior, k - 1))
-                                           ELSE [sp |-> "none", x |-> Q(0)]]
+          /\ recv' = [o \in Owners |->
+                        IF o \notin Fitted THEN <<>>
+                        ELSE LET p == inforce[o] IN
+                             [k \in 1..(UN + 1) |-> IF (k - 1) \in Grid(p) THEN Deliver(p, ModeOf(Setting(o).pk), Sample(p, k - 1))
+                                                    ELSE [sp |-> "none", x |-> Q(0)]]]
           /\ phase' = "done"
-          /\ UNCHANGED <<pk, route, name, call, prior>>
-Next == Attach \/ Compile \/ Update
+          /\ UNCHANGED <<focus, comp, pk, route, name, call, user, inforce>>
+Next == Attach \/ CompileModel \/ CompileObservation \/ Recompile \/ Update
 Spec == Init /\ [][Next]_vars
 
 Done == phase = "done"
+Compiled == phase \in {"compiled", "done"}
 ZOk == ZAssumption
+\* the prior that must be in force for the fitted parameter of owner o: the user's call as constructed directly, or the
+\* default call of the parameter's mode and bounds
+Expected(o) == Build(Setting(o).call)
 \* the property: log classes hand 10^x, linear classes x, x the inverse CDF of the prior as constructed directly --
-\* whatever the mode of the parameter and the route by which the prior arrived
-DeliveryInv == Done => \A k \in Grid(prior) :
-                 /\ recv[k + 1].x = Sample(Build(call), k)
-                 /\ recv[k + 1].sp = (IF call.cls \in LogKinds THEN "pow10" ELSE "id")
-RouteInv == phase \in {"compiled", "done"} => prior = Build(call)
-DefaultSpaceInv == (phase \in {"compiled", "done"} /\ route = "default") => SpaceOf(prior.kind) = ModeOf(pk)
-\* every combination of prior space and parameter mode is part of the model (vacuity guard, checked by the driver
-\* on the exported vectors as well)
-FitsInv == Done => \A k \in 1..Len(recv) : Fits(recv[k].x)
+\* whatever the mode of the parameter, the route by which the prior arrived and the owner of the parameter
+DeliveryInv == Done => \A o \in Fitted : \A k \in Grid(Expected(o)) :
+                 /\ recv[o][k + 1].x = Sample(Expected(o), k)
+                 /\ recv[o][k + 1].sp = (IF Setting(o).call.cls \in LogKinds THEN "pow10" ELSE "id")
+RouteInv == Compiled => \A o \in Fitted : inforce[o] = Expected(o)
+\* a user prior is the prior in force (for either owner, in any company) ...
+UserPriorInForceInv == Compiled => \A o \in Fitted : user[o] # NoPrior => inforce[o] = user[o]
+\* ... and a default prior goes to the parameters that were given none, from their own mode and bounds
+DefaultOnlyWhenNoneInv == Compiled => \A o \in Fitted : user[o] = NoPrior =>
+                              /\ Setting(o).route = "default"
+                              /\ inforce[o] = Build(DefaultCall(ModeOf(Setting(o).pk), Setting(o).bounds))
+                              /\ SpaceOf(inforce[o].kind) = ModeOf(Setting(o).pk)
+DefaultSpaceInv == Compiled => \A o \in Fitted : Setting(o).route = "default" => SpaceOf(inforce[o].kind) = ModeOf(Setting(o).pk)
+\* nothing is compiled for, or delivered to, an owner that has no fitted parameter
+OwnerInv == /\ \A o \in Owners \ Fitted : inforce[o] = NoPrior /\ recv[o] = <<>>
+            /\ Compiled => \A o \in Fitted : inforce[o] # NoPrior
+            /\ phase = "pass1" => inforce["observation"] = NoPrior
+FitsInv == Done => \A o \in Fitted : \A k \in 1..Len(recv[o]) : Fits(recv[o][k].x)
 
+Slot(o) == LET s == Setting(o) IN
+    [owner |-> o, role |-> IF o = focus THEN "focus" ELSE "company", pk |-> s.pk, mode |-> ModeOf(s.pk), route |-> s.route,
+     name |-> s.name, call |-> s.call, bounds |-> s.bounds, given |-> user[o] # NoPrior, p |-> inforce[o],
+     space |-> SpaceOf(inforce[o].kind), recv |-> recv[o]]
 Emit == (Export /\ Done) =>
-    PrintT(<<"DLV", ToJson([pk |-> pk, mode |-> ModeOf(pk), route |-> route, name |-> name, call |-> call, p |-> prior,
-                            space |-> SpaceOf(prior.kind), recv |-> recv, un |-> UN])>>)
+    PrintT(<<"DLV", ToJson([focus |-> focus, comp |-> comp, pk |-> pk, mode |-> ModeOf(pk), route |-> route, name |-> name,
+                            call |-> call, slots |-> [o \in Fitted |-> Slot(o)], un |-> UN])>>)
 =============================================================================
